@@ -301,3 +301,6 @@ B('C01.identity-equality', ['C01'], [(P + 'tls/openvpn.py', "@attr.s\nclass Open
    "class OpenVpnPacketWrapperTcp(ParsableBase):\n    def __init__(self, payload):\n        self.payload = payload\n")], mention=['equality'])
 N('benign.explicit-eq-over-dict', [(P + 'tls/openvpn.py', "@attr.s\nclass OpenVpnPacketWrapperTcp(ParsableBase):\n    payload = attr.ib()\n",
    "class OpenVpnPacketWrapperTcp(ParsableBase):\n    def __init__(self, payload):\n        self.payload = payload\n\n    def __eq__(self, other):\n        return type(self) is type(other) and self.__dict__ == other.__dict__\n\n    def __hash__(self):\n        return hash(bytes(self.payload))\n")])
+B('C17.eq-reads-foreign-operand', ['C17'], [(P + 'tls/version.py', "    def __eq__(self, other):\n        if not isinstance(other, TlsProtocolVersion):\n            return NotImplemented\n\n", "    def __eq__(self, other):\n")], mention=['foreign-operand'])
+N('benign.eq-guard-by-attribute-error', [(P + 'tls/version.py', "    def __eq__(self, other):\n        if not isinstance(other, TlsProtocolVersion):\n            return NotImplemented\n\n        return self.version.value.code == other.version.value.code\n",
+   "    def __eq__(self, other):\n        try:\n            return self.version.value.code == other.version.value.code\n        except AttributeError:\n            return NotImplemented\n")])
